@@ -602,14 +602,12 @@ func isSuggest(targetT base.T, sig base.Sig) bool {
 		return true
 	}
 
-	if isStaticTarget != sig.IsStatic {
-		return false
-	}
-
-	if sig.Class == objectClass {
+	if isStaticTarget == sig.IsStatic && sig.Class == objectClass {
 		return true
 	}
 
+	// the ancestor walk matches the side itself: a class receiver also
+	// answers the instance methods of the modules it extends
 	return isParentClass(sig, targetT.GetFrame(), objectClass, isStaticTarget, false, false)
 }
 
@@ -629,25 +627,31 @@ func isParentClass(
 		return false
 	}
 
-	if sig.IsStatic != isStaticTarget {
-		return false
-	}
-
 	return isParentClassWithVisited(
 		sig,
 		frame,
 		class,
 		isStaticTarget,
-		make(map[base.ClassNode]bool),
+		make(map[ancestorVisit]bool),
 	)
 }
 
-// visited keeps the ancestor walk finite when the hierarchy contains a cycle
+// an ancestor is walked once per side: a module can be reached for its
+// instance methods (include, or extend seen from the class side) only
+type ancestorVisit struct {
+	node     base.ClassNode
+	isStatic bool
+}
+
+// visited keeps the ancestor walk finite when the hierarchy contains a cycle.
+// wantStatic is the side of the signatures the current node contributes: the
+// class side of the receiver's superclasses, but the instance side of a module
+// the class (or a superclass) extends
 func isParentClassWithVisited(
 	sig base.Sig,
 	frame, class string,
-	isStaticTarget bool,
-	visited map[base.ClassNode]bool,
+	wantStatic bool,
+	visited map[ancestorVisit]bool,
 ) bool {
 
 	if sig.Method == "new" {
@@ -658,28 +662,38 @@ func isParentClassWithVisited(
 		frame = "Builtin"
 	}
 
-	if sig.Frame == frame && sig.Class == class {
+	if sig.Frame == frame && sig.Class == class && sig.IsStatic == wantStatic {
 		return true
 	}
 
 	classNode := base.ClassNode{Frame: frame, Class: class}
+	visit := ancestorVisit{node: classNode, isStatic: wantStatic}
 
-	if visited[classNode] {
+	if visited[visit] {
 		return false
 	}
 
-	visited[classNode] = true
+	visited[visit] = true
 
 	for _, parentNode := range base.ClassInheritanceMap[classNode] {
-		if parentNode.IsExtend && !isStaticTarget {
-			continue
+		parentWantStatic := wantStatic
+
+		switch {
+		case parentNode.IsExtend:
+			if !wantStatic {
+				continue
+			}
+
+			// the class answers the instance methods of an extended module
+			parentWantStatic = false
+
+		case parentNode.IsInclude:
+			if wantStatic {
+				continue
+			}
 		}
 
-		if parentNode.IsInclude && isStaticTarget {
-			continue
-		}
-
-		if isParentClassWithVisited(sig, parentNode.Frame, parentNode.Class, isStaticTarget, visited) {
+		if isParentClassWithVisited(sig, parentNode.Frame, parentNode.Class, parentWantStatic, visited) {
 			return true
 		}
 	}
